@@ -450,7 +450,9 @@ class Producer(object):
         # We can be triggered by the LoopingCall, and have nothing to send...
         # Or, we've got SendRequest(s) to send, but are still processing the
         # previous batch...
-        if (not self._batch_reqs) or self._batch_send_d:
+        # ... or we are being stopped: cancelling the batch in flight completes
+        # it, which must not start the next one.
+        if (not self._batch_reqs) or self._batch_send_d or self.stopping:
             return
 
         # Save a local copy, and clear the global list & metrics
